@@ -15,23 +15,25 @@ func init() {
 var allComs = []string{"CHF", "USD", "EUR", "AAPL", "BTC"}
 
 func rxFor(r *rng, names []string) string {
-	n := pick(r, names)
+	// cuts are made between runes: a cut inside a multi-byte character gives an expression that is not valid UTF-8,
+	// which regexp.Compile rejects (the flag families of C14 cover rejected expressions)
+	n := []rune(pick(r, names))
 	switch r.intn(4) {
 	case 0:
-		return "^" + n
+		return "^" + string(n)
 	case 1:
 		if len(n) > 4 {
-			return n[len(n)-4:] + "$"
+			return string(n[len(n)-4:]) + "$"
 		}
-		return n + "$"
+		return string(n) + "$"
 	case 2:
 		if len(n) > 3 {
 			a := r.intn(len(n) - 2)
-			return n[a : a+2+r.intn(len(n)-a-2)]
+			return string(n[a : a+2+r.intn(len(n)-a-2)])
 		}
-		return n
+		return string(n)
 	default:
-		return n
+		return string(n)
 	}
 }
 
